@@ -1903,7 +1903,7 @@ fn handle_volumes(
     podman: &mut PodmanCommand,
 ) -> Result<(), ConversionError> {
     for volume in quadlet_unit_file.lookup_all(section, "Volume") {
-        let parts: Vec<&str> = volume.split(':').collect();
+        let parts: Vec<&str> = volume.splitn(3, ':').collect();
 
         let mut source = String::new();
         let dest;
